@@ -9,7 +9,8 @@ CLAIMED = {
         "text": "TLC exhausts the RAII guard machine EvalStack.tla (every enter/leave of scope, frame, call, try; Throw enabled in every "
                 "state; unwinding runs destructors) and checks ShapeMatchesGuards/RestoredAtTop/TopLevelDeclsSurvive in every state; the "
                 "real engine is then driven through fault enumeration (every callback invocation x 4 exception kinds, script-level "
-                "throw/return/break at every callback site), every run traced through the H2 hooks and validated event by event by TLC "
+                "throw/return/break and eleven kinds of error the engine raises by itself - duplicate parameter or capture names while binding a call, "
+                "unknown function or method, failed guard, arity, division by zero, out of range, redeclaration - at every callback site), every run traced through the H2 hooks and validated event by event by TLC "
                 "against the same ChaiState transitions (EvalStackTrace.tla), with the engine's own stack-shape accessor, get_locals() and "
                 "a follow-up script as independent reads.",
         "note": "Assumes the H2 hooks sit next to the state changes they report (cross-checked against verif_stack_shape at every "
@@ -55,7 +56,8 @@ CLAIMED["C15"] = {
             "tables equal the dictionary model after every operation, in particular after set_state) and SnapshotsImmutable over all "
             "histories inside the bound, and the in-place variant must fail. As executable reference TLC then enumerates histories (all of "
             "length 3 over 17 operations, seeded random ones of length 8) with the visible environment expected after every step; each is "
-            "replayed into the real engine and probed through plain calls, member calls, get_functions(), globals, type names, a class and "
+            "replayed into the real engine and probed through plain calls, member calls, get_functions(), globals, type names in both directions "
+            "(name -> type, and object -> name for objects made before any snapshot), a class and "
             "a top-level local after every step."
             " The probes include persistent call sites (parsed before any snapshot, run again after every step) and a diverged-timelines family that is deliberately not probed right after set_state (a probe there would heal a stale lookup hint).",
     "note": "Globals are modelled as the code shares them: a snapshot holds the binding name -> object, so a later assignment to an "
@@ -114,10 +116,11 @@ CLAIMED["C17"] = {
             "checks that the range-cursor loop models of take/drop/zip_with refine the definitions and that the algebraic laws hold for every "
             "vector inside the bound, then exports all cases (25 functions x vectors of length <= 3 (4 thorough) over {-1,0,1,2} x callback "
             "menu x numeric argument classes {-1,0,1,size,size+1}; scalars -5..5) with expected result, callback trace and unchanged "
-            "inputs; every case is replayed through the real prelude."
+            "inputs; every case is replayed through the real prelude. Range objects (range, retro, range of a range) held in a variable are inputs too: "
+            "the cursor model (CloneRange, InputRangeKept) says the caller's range still spans everything afterwards, and it is drained after the call."
             " Also covered: strings as containers (ltrim/rtrim/trim with TrimLaws, take/drop/filter/take_while/drop_while/reverse/concat over strings), retro, find, collate, new, and join/to_string over vectors of strings (JoinLaws).",
     "note": "Covered: for_each map filter foldl reduce sum product any_of all_of contains take take_while drop drop_while concat zip "
-            "zip_with reverse join to_string generate_range min max even odd. Not yet in the family: string/map inputs, retro, find, trim.",
+            "zip_with reverse join to_string generate_range min max even odd, retro, find, collate, trim family; map inputs are not in the family.",
     "technique": "TLA+ functional specification (TLC checks loop refinement and laws) + exhaustive replay of TLC-exported cases",
     "design": "5 C17",
 }
@@ -155,7 +158,8 @@ CLAIMED["C05"] = {
     "text": "Arith.tla states integral promotion, the usual arithmetic conversions, the result class of every operator (comparison -> "
             "bool, shift -> promoted left operand, compound assignment and ++/-- -> left operand type, in place), which operations C++ "
             "does not define on floating operands, and the trap predicate (integer / and % by zero, MIN / -1 in the working type); TLC "
-            "checks the table laws and exports every (operator, left kind, right kind, left value class, right value class) cell; the "
+            "checks the table laws and exports every (operator, left kind, right kind, left value class, right value class) cell, plus shift cells with "
+            "the counts 8, 16 and 31 (a shift is carried out in the promoted type of its left operand, so these are valid for 8- and 16-bit operands too); the "
             "driver checks the table against decltype, evaluates every cell in the real engine by up to four routes (runtime node, "
             "operator as function, right-constant fold, constant fold) and compares result class, value and the left operand after "
             "in-place operators with native C++ arithmetic on the same types; a crash (SIGFPE) is an observation.",
@@ -186,13 +190,15 @@ CLAIMED["C06"] = {
             "binary catalogue of C++ signatures (value, const&, &, *, const*, shared_ptr, shared_ptr<const>, arithmetic, bool, string, "
             "Base/Derived, Boxed_Value, Boxed_Number) under one name, calls it with every argument kind (values, literals, const objects, "
             "references, shared_ptr, a Base that really is a Derived, a const Base that is not) and records which overload was entered, how "
-            "often and what it received, plus boxed_cast<T> of every argument kind to 13 forms and wrong-arity calls; TLC checks every one of "
+            "often and what it received, plus boxed_cast<T> of every argument kind to 13 forms, wrong-arity calls, data-member accessors by four routes, and "
+            "seven forms of a parameter reached through a user type_conversion<From, To> (alone, beside a From overload, beside a catch-all) in engines "
+            "with and without the conversion; TLC checks every one of "
             "the ~16,000 rows against the laws of Dispatch.tla (TypeSafe/ConstSafe, ExactWins, ExactlyOnce, NoMatchNoEntry, "
             "ReceivedIsConverted, CastSound) and against a transcription of function_less_than/dispatch/dispatch_with_conversions/boxed_cast, "
             "and checks (SpecSound) that the transcription itself satisfies the laws.",
     "note": "A difference from the transcription that still satisfies the laws is reported as drift in the evidence, not as a violation. "
             "Known finding: an exception of a swallowed type thrown from inside an entered function makes the loop enter a second overload. "
-            "std::function wrappers, vector/map conversions and user type_conversion<> are not in the catalogue yet.",
+            "std::function wrappers and vector/map conversions are not in the catalogue yet.",
     "technique": "trace validation by TLC of recorded overload resolutions and casts against a TLA+ specification (laws + transcription)",
     "design": "5 C06",
 }
@@ -236,7 +242,8 @@ CLAIMED["C08"] = {
     "text": "Reeval.tla runs on ChaiCore's machine extended with the syntax tree as state: every literal node owns ONE cell (M.ast) that each "
             "evaluation hands out (as Constant_AST_Node::m_value is), values returned by value carry the return-value flag, and every mutating "
             "operation respects const/temporary flags. TLC evaluates generated cases - functions building and mutating locals from literals along "
-            "every escape route (var, var&, :=, argument, return, ternary, container element, capture, loop variables), called 3-4 times interleaved "
+            "every escape route (var, var&, :=, argument, return, ternary, container element, capture, loop variables, the counter of a compiled loop "
+            "returned from inside it, a compiled loop entered again while it runs), called 3-4 times interleaved "
             "- and decides AstUnchanged after every segment and Rerun per call group; the same cases with one literal marked mutable must be "
             "reported (sanity). Each case is replayed in the real engine with both parsers through eval(AST_Node) on kept trees: outcome, output and "
             "value per segment equal the reference, equal calls are equal among themselves, and a structural snapshot of every kept tree (node kinds, "
@@ -271,7 +278,8 @@ CLAIMED["C07"] = {
             "push_back, ranged-for over an inline vector, map insertion, clone()); mutators that check the handle before touching the object. TLC checks "
             "ConstObjectsUnchanged, ConstFlagSurvives and FailedAttemptsLeaveNoTrace over every chain of routes followed by any mutator from every "
             "source, and refutes a binding that drops the flag. Every chain is exported with its prediction, printed from per-action templates and run "
-            "against 16 const sources (literals, const_var/add_global_const values, C++ objects by const&, const*, cref wrapper, shared_ptr<const>) and "
+            "against 24 const sources (literals and constants the optimizer folds, const_var/add_global_const values, C++ objects by const&, const*, cref wrapper, "
+            "shared_ptr<const>, and const VIEWS of non-const C++ objects: const_var(std::ref(x)), const_var(&x), const_var(shared_ptr<T>)) and "
             "5 mutable controls; the value of each C++-owned object is read from C++ before and after, the script's own view before/after, and an "
             "attempt through a const handle must fail - counted only where the same chain+mutator provably mutates the control.",
     "note": "Chains of length <= 1 exhaustively and a seeded 2500 of length 2 in quick; all of length <= 2 in thorough (about 56,000 scripts). Known findings: "
@@ -289,8 +297,9 @@ CLAIMED["C11"] = {
             "printed from templates and run (both parsers, evaluated twice) against an instrumented class whose registry records constructions, "
             "destructions, touches after destruction, double destruction and instances alive after the engine is gone; model-safe paths also run "
             "under ASan+UBSan with stack-use-after-return detection. Safe paths must be clean, nothing may leak or die twice on any path.",
-    "note": "Exhaustive over the paths of the model (18 sources x 11 binders x 6 events, applicable combinations). The dangling verdicts are the "
-            "borrowed-reference escapes: 12 known findings, one per source of bare references. Reference cycles and other threads' per-thread state are outside the property.",
+    "note": "Exhaustive over the paths of the model (22 sources - among them values converted down or up a class hierarchy for a typed script parameter, and references and pointers into the object a user conversion made for a C++ "
+            "parameter - x 11 binders x 6 events, applicable combinations). The dangling verdicts are the "
+            "borrowed-reference escapes: 14 known findings, one per source of bare references; 2 more for const-reference returns adopted instead of copied. Reference cycles and other threads' per-thread state are outside the property.",
     "technique": "TLC model checking of the ownership machine + TLC-enumerated paths replayed into the implementation with an instrumented class (registry) under plain and ASan/UBSan builds",
     "design": "5 C11",
 }
